@@ -311,7 +311,12 @@ func (t *sseClientTransport) handleEndpointEvent(endpointURL string) {
 	}
 
 	t.endpoint = parsedURL
-	close(t.endpointChan) // Signal that the endpoint has been received.
+	// Signal that the endpoint has been received; a server may repeat the event.
+	select {
+	case <-t.endpointChan:
+	default:
+		close(t.endpointChan)
+	}
 }
 
 // handleMessageEvent processes message events from the server.
